@@ -16,6 +16,11 @@ class C06(ProgramProperty):
             "and expand / compress are compared before and after standardisation. Non-trivial = some input "
             "is changed by standardisation (it was written with a synonym). Converters are built directly or through histories (queried, extended with new records and merges, a rejected call whose would-be names are probed afterwards).")
 
+    def exhaustive(self, tier):
+        from .. import smallscope
+
+        return smallscope.run(self.id, tier)
+
     def gen(self, rng, tier):
         delim = rng.choice(gen.DELIMS)
         pf = rng.random() < 0.5
